@@ -183,7 +183,7 @@ func (i *interpreter) mkInt(t *smt.Term, k types.BasicKind, checked bool) value 
 	}
 	if checked {
 		lo, hi := kindRange(k)
-		i.path.addObligation(smt.And(smt.Le(smt.BigConst(lo), t), smt.Le(t, smt.BigConst(hi))))
+		i.path.addObligation(smt.And(smt.Le(smt.BigConst(lo), t), smt.Le(t, smt.BigConst(hi))), i.where())
 	}
 	return symInt{t, k}
 }
